@@ -197,30 +197,14 @@ def velocity_at(v0, t0, modifier, t):
 
 
 def effective_click(focal_plane, nominal_raw, unit, scale_inch, target_inch, magnification):
-    """the statement's effective click size: nominal for first focal plane; nominal / magnification
-    for LWIR; nominal x (calibration distance / target distance) x magnification for second focal
-    plane - of the angle for the linear angular units, of the subtension (tangent) for the two
-    tangent-defined units, as those units are defined"""
+    """the statement's effective click size (an angle): nominal for first focal plane; nominal / magnification
+    for LWIR; nominal x (calibration distance / target distance) x magnification for second focal plane -
+    whatever unit the click size is displayed in"""
     if focal_plane == 'FFP':
         return nominal_raw
     if focal_plane == 'LWIR':
         return nominal_raw / magnification
-    k = scale_inch / target_inch * magnification
-    if unit in TANGENT_RUN:
-        return math.atan(math.tan(nominal_raw) * k)
-    return nominal_raw * k
-
-
-# ---------------------------------------------------------------------------------------
-# C16 / C20
-def row_eq(a, b):
-    """two trajectory rows carry the same data"""
-    return (a.time == b.time and raw(a.distance) == raw(b.distance) and raw(a.velocity) == raw(b.velocity)
-            and a.mach == b.mach and raw(a.height) == raw(b.height) and raw(a.target_drop) == raw(b.target_drop)
-            and raw(a.drop_adj) == raw(b.drop_adj) and raw(a.windage) == raw(b.windage)
-            and raw(a.windage_adj) == raw(b.windage_adj) and raw(a.look_distance) == raw(b.look_distance)
-            and raw(a.angle) == raw(b.angle) and a.density_factor == b.density_factor and a.drag == b.drag
-            and raw(a.energy) == raw(b.energy) and raw(a.ogw) == raw(b.ogw) and a.flag == b.flag)
+    return nominal_raw * (scale_inch / target_inch * magnification)
 
 
 # ---------------------------------------------------------------------------------------
@@ -368,3 +352,111 @@ def query_set_humidity_query(atmo, h1, hum, h2):
     atmo.get_density_factor_and_mach_for_altitude(h1)
     atmo.humidity = hum
     return atmo.get_density_factor_and_mach_for_altitude(h2)
+
+
+# ---------------------------------------------------------------------------------------
+# C07 harnesses: preferred units only choose how bare numbers are read
+from py_ballisticcalc.conditions import Wind, Shot  # noqa: E402
+from py_ballisticcalc.munition import Weapon, Ammo, Sight  # noqa: E402
+from py_ballisticcalc.drag_model import DragModel, BCPoint, DragModelMultiBC  # noqa: E402
+from py_ballisticcalc.unit import Velocity, Angular, Weight  # noqa: E402
+
+
+def mk_atmo(**kw):
+    return Atmo(**kw)
+
+
+def mk_wind(**kw):
+    return Wind(**kw)
+
+
+def mk_weapon(**kw):
+    return Weapon(**kw)
+
+
+def mk_ammo(**kw):
+    mv = kw.pop('mv', Velocity.MPS(800))
+    return Ammo(None, mv, **kw)
+
+
+def mk_shot(**kw):
+    return Shot(None, None, atmo=False, winds=False, **kw)
+
+
+def mk_sight(**kw):
+    h = kw.pop('h_click_size', Angular.Mil(0.1))
+    v = kw.pop('v_click_size', Angular.Mil(0.1))
+    return Sight('FFP', kw.pop('scale_factor', None), h, v)
+
+
+def mk_dragmodel(**kw):
+    return DragModel(0.3, [{'Mach': 0.0, 'CD': 0.3}, {'Mach': 1.0, 'CD': 0.4}, {'Mach': 2.0, 'CD': 0.3}], **kw)
+
+
+def mk_bcpoint(**kw):
+    return BCPoint(0.3, None, **kw)
+
+
+def bare_vs_quantity(ctor, pname, slot, unit, x):
+    """the object built from the bare number x (read in the preferred unit of `slot`, here set to `unit`) and the
+    object built from the explicit quantity unit(x)"""
+    saved = getattr(PreferredUnits, slot)
+    setattr(PreferredUnits, slot, unit)
+    a = ctor(**{pname: x})
+    b = ctor(**{pname: unit(x)})
+    setattr(PreferredUnits, slot, saved)
+    return (a, b)
+
+
+def quantity_under_two_settings(ctor, pname, slot, unit_a, unit_b, q):
+    """the object built from the explicit quantity q under two different preferred-unit settings"""
+    saved = getattr(PreferredUnits, slot)
+    setattr(PreferredUnits, slot, unit_a)
+    a = ctor(**{pname: q})
+    setattr(PreferredUnits, slot, unit_b)
+    b = ctor(**{pname: q})
+    setattr(PreferredUnits, slot, saved)
+    return (a, b)
+
+
+def sfp_clicks_under_two_settings(unit_a, unit_b, h, v, scale, target, drop, windage, magnification):
+    """second-focal-plane clicks from explicit quantities under two preferred adjustment units"""
+    saved = PreferredUnits.adjustment
+    PreferredUnits.adjustment = unit_a
+    r1 = Sight('SFP', scale, h, v).get_adjustment(target, drop, windage, magnification)
+    PreferredUnits.adjustment = unit_b
+    r2 = Sight('SFP', scale, h, v).get_adjustment(target, drop, windage, magnification)
+    PreferredUnits.adjustment = saved
+    return (r1, r2)
+
+
+def powder_sens_bare_vs_quantity(slot, unit, which, x, other):
+    """Ammo.calc_powder_sens with one argument given as a bare number (read in the preferred unit) and as the
+    explicit quantity; `other` is the other argument (a quantity)"""
+    saved = getattr(PreferredUnits, slot)
+    setattr(PreferredUnits, slot, unit)
+    a = Ammo(None, Velocity.MPS(800), Temperature.Celsius(15))
+    b = Ammo(None, Velocity.MPS(800), Temperature.Celsius(15))
+    if which == 'temperature':
+        r1 = a.calc_powder_sens(other, x)
+        r2 = b.calc_powder_sens(other, unit(x))
+    else:
+        r1 = a.calc_powder_sens(x, other)
+        r2 = b.calc_powder_sens(unit(x), other)
+    setattr(PreferredUnits, slot, saved)
+    return (r1, r2)
+
+
+def velocity_for_temp_bare_vs_quantity(unit, x, modifier):
+    saved = PreferredUnits.temperature
+    PreferredUnits.temperature = unit
+    a = Ammo(None, Velocity.MPS(800), Temperature.Celsius(15), modifier, True)
+    r1 = a.get_velocity_for_temp(x)
+    r2 = a.get_velocity_for_temp(unit(x))
+    PreferredUnits.temperature = saved
+    return (r1, r2)
+
+
+def mk_multibc(**kw):
+    return DragModelMultiBC([BCPoint(0.3, 1.0)], [{'Mach': 0.0, 'CD': 0.3}, {'Mach': 1.0, 'CD': 0.4},
+                                                  {'Mach': 2.0, 'CD': 0.3}], **kw)
